@@ -12,15 +12,43 @@
 (***************************************************************************)
 EXTENDS MC_Aux, Json
 
-VARIABLES hist, phase
-CONSTANT WalkLen
+VARIABLES hist, phase, sid
+CONSTANTS WalkLen,    \* length of a free walk
+          Sids        \* {0}: free walks (simulation); a set of indices into Scripts: scripted walks (exhaustive)
 
-gvars == <<vars, hist, phase>>
+gvars == <<vars, hist, phase, sid>>
+
+(* Scripted histories: each step fixes the action and some of its arguments; TLC fills in the rest *)
+(* (all possibilities) and the abstract buffer shape before every step.  The first three are the  *)
+(* counterexamples of the negative models (no MAC check, fresh buffer not cleared) and a history  *)
+(* in which the buffer changes owner between two signatures of the same key.                      *)
+Scripts == <<
+  << [a |-> "new_zero", c |-> 45], [a |-> "keygen", k |-> "a", aux |-> TRUE], [a |-> "nop"], [a |-> "sign", k |-> "a", aux |-> TRUE],
+     [a |-> "new_zero", c |-> 45], [a |-> "keygen", k |-> "b", aux |-> TRUE], [a |-> "nop"], [a |-> "sign", k |-> "a", aux |-> TRUE],
+     [a |-> "nop"], [a |-> "sign", k |-> "b", aux |-> TRUE], [a |-> "nop"], [a |-> "sign", k |-> "a", aux |-> TRUE] >>,
+  << [a |-> "new_zero", c |-> 45], [a |-> "keygen", k |-> "a", aux |-> TRUE], [a |-> "tamper_data"], [a |-> "sign", k |-> "a", aux |-> TRUE],
+     [a |-> "nop"], [a |-> "keygen", k |-> "a", aux |-> TRUE], [a |-> "tamper_mac"], [a |-> "sign", k |-> "a", aux |-> TRUE] >>,
+  << [a |-> "new_garbage", m |-> FALSE], [a |-> "sign", k |-> "a", aux |-> TRUE], [a |-> "nop"], [a |-> "sign", k |-> "a", aux |-> TRUE],
+     [a |-> "clear_marker"], [a |-> "keygen", k |-> "a", aux |-> TRUE], [a |-> "nop"], [a |-> "sign", k |-> "a", aux |-> TRUE] >>,
+  << [a |-> "new_zero", c |-> 45], [a |-> "sign", k |-> "a", aux |-> TRUE], [a |-> "nop"], [a |-> "sign", k |-> "a", aux |-> TRUE],
+     [a |-> "nop"], [a |-> "keygen", k |-> "a", aux |-> TRUE], [a |-> "clear_marker"], [a |-> "keygen", k |-> "a", aux |-> TRUE],
+     [a |-> "nop"], [a |-> "sign", k |-> "b", aux |-> TRUE], [a |-> "nop"], [a |-> "sign", k |-> "a", aux |-> TRUE] >>,
+  << [a |-> "new_zero", c |-> 45], [a |-> "keygen", k |-> "a", aux |-> TRUE], [a |-> "truncate"], [a |-> "sign", k |-> "a", aux |-> TRUE],
+     [a |-> "pad"], [a |-> "sign", k |-> "a", aux |-> TRUE], [a |-> "nop"], [a |-> "keygen", k |-> "a", aux |-> TRUE] >>,
+  << [a |-> "new_zero", c |-> 43], [a |-> "keygen", k |-> "a", aux |-> TRUE], [a |-> "tamper_word"], [a |-> "sign", k |-> "a", aux |-> TRUE],
+     [a |-> "tamper_word", s |-> <<1, 5>>], [a |-> "sign", k |-> "a", aux |-> TRUE] >>,
+  << [a |-> "new_zero", c |-> 1], [a |-> "keygen", k |-> "a", aux |-> TRUE], [a |-> "pad"], [a |-> "sign", k |-> "a", aux |-> TRUE],
+     [a |-> "new_zero", c |-> 3], [a |-> "keygen", k |-> "a", aux |-> TRUE], [a |-> "nop"], [a |-> "sign", k |-> "a", aux |-> TRUE] >>
+>>
+TargetLen == IF sid = 0 THEN WalkLen ELSE Len(Scripts[sid])
+Matches(rec) ==
+    IF sid = 0 THEN TRUE
+    ELSE LET st == Scripts[sid][Len(hist) + 1] IN \A f \in DOMAIN st : f \in DOMAIN rec /\ rec[f] = st[f]
 SetToSeq(S) == LET RECURSIVE R(_) R(T) == IF T = {} THEN <<>> ELSE LET x == CHOOSE y \in T : \A z \in T : y <= z IN <<x>> \o R(T \ {x}) IN R(S)
 (* every record carries the buffer's abstract shape BEFORE the step *)
-Log(rec) == hist' = Append(hist, rec @@ [cap |-> buf.cap, word |-> SetToSeq(buf.word), marker |-> buf.marker])
+Log(rec) == Matches(rec) /\ hist' = Append(hist, rec @@ [cap |-> buf.cap, word |-> SetToSeq(buf.word), marker |-> buf.marker])
 
-GInit == Init /\ hist = <<>> /\ phase = "env"
+GInit == Init /\ hist = <<>> /\ phase = "env" /\ sid \in Sids
 
 (* Simulation picks uniformly among successor states: library calls and what happens to the   *)
 (* buffer in between alternate, and the lengths offered are the ones around the thresholds of *)
@@ -29,7 +57,7 @@ ZeroCaps == {1, 3, 12, 43, 45}
 CutCaps == {c \in 0..Cap : c \in {0, 1, 2, Size(buf.word) - 1, Size(buf.word) - 2, buf.cap - 1, Size(buf.word)}}
 PadCaps == {c \in 0..Cap : c \in {buf.cap + 1, Size(buf.word), Cap}}
 GNext ==
-    /\ Len(hist) < WalkLen
+    /\ Len(hist) < TargetLen /\ UNCHANGED sid
     /\ \/ /\ phase = "lib" /\ phase' = "env"
           /\ \/ \E k \in Keys : Keygen(k, TRUE) /\ Log([a |-> "keygen", k |-> k, aux |-> TRUE])
              \/ \E k \in Keys : Sign(k, TRUE) /\ Log([a |-> "sign", k |-> k, aux |-> TRUE])
@@ -48,5 +76,5 @@ GNext ==
 
 GSpec == GInit /\ [][GNext]_gvars
 
-WalkComplete == (Len(hist) = WalkLen) => PrintT(<<"WALK", ToJson(hist)>>)
+WalkComplete == (Len(hist) = TargetLen) => PrintT(<<"WALK", ToJson([sid |-> sid, steps |-> hist])>>)
 =============================================================================
